@@ -332,16 +332,9 @@ def check_sol(case):
     if st2 == "exception":
         return result([Viol(dict(sig, kind="exception", exc=type(o2.exc).__name__), f"{pair}: the general configuration raises {type(o2.exc).__name__}: {str(o2.exc)[:160]}")], True, [pair])
     if st2 != "ok":
-        # differential form of "does not solve the same problem": the special configuration removes all of the initial
-        # sub-optimality (converged at 1e-9) while the general one, after a budget of tens of thousands of epochs on a
-        # problem with <= 8 features, keeps more than a hundredth of it (sublinear CD rates give ~1/epochs)
-        if o2.w is not None and np.all(np.isfinite(np.asarray(w2, float))):
-            from .c03 import start_point
-            Fs, Fa, Fb = M.F_of(ref, start_point(ref)), M.F_of(ref, w_ref), M.F_of(ref, np.asarray(w2, float))
-            if np.isfinite(Fs) and np.isfinite(Fb) and Fs - Fa > 1e-6 * (abs(Fs) + abs(Fa)) and Fb - Fa > 1e-2 * (Fs - Fa):
-                return result([Viol(dict(sig, kind="general-stalls"),
-                                    f"{pair}: the general configuration does not converge (objective {Fb!r} after the full budget, start {Fs!r}) "
-                                    f"while the special case converges to {Fa!r}")], True, [pair, "general-not-converged"])
+        # (a relative "keeps x % of the initial sub-optimality" rule was tried here and withdrawn: plain coordinate descent
+        # on two nearly collinear columns legitimately needs far more than 50000 epochs where the accelerated special case
+        # converges -- different algorithms may differ in speed by any factor)
         # Stagnation at a non-stationary point (c01.stagnation: flat true-objective history vs the gain one coordinate
         # pass guarantees) -- no budget argument
         if pair.startswith("GramCD"):
